@@ -262,7 +262,9 @@ def check(ctx):
 
     # ---- C07.f who may despawn ----
     sites = despawn_sites(prog)
-    ctx.floor("C07.f", len(sites), 5, "despawn call sites")
+    # conditional rule (IF the framework despawns THEN only these provenances): the floor only guards against the site
+    # enumeration itself going blind, not against a maintainer removing a despawn
+    ctx.floor("C07.f", len(sites), 2, "despawn call sites")
     for (body, b, name, cls, detail) in sites:
         ctx.touch(body)
         ctx.check(cls is not None, "C07.f", "%s:%s:%s" % (lib.fkey(body), name, cls or "unclassified"), body.loc(b),
